@@ -219,6 +219,7 @@ def life_jobs(pid, tier):
         life_job(pid + ".life.free.native", "free", secs=T(tier, 5, 90), alloc="reuse", shards=2),
         life_job(pid + ".life.free.asan", "free", secs=T(tier, 5, 60), flavour="asan", alloc="real", shards=2),
         life_job(pid + ".life.free.asan.arc", "free", secs=T(tier, 4, 60), flavour="asan", alloc="real", shards=2, val="arc"),
+        {"name": pid + ".life.miri", "flavour": "miri", "args": ["life", "profile=c10", "mode=free", "alloc=real", "execs=1"], "miri_seeds": T(tier, 4, 96), "timeout": 1800},
     ]
 
 
@@ -442,6 +443,7 @@ def plan_c13():
 PLANS["C13"] = plan_c13()
 
 PLANS["C16"] = plan_core("C16", "c16", "cache loads as reads in the history + ledger accounting of the retained value",
+                         extra_jobs=lambda tier, seed: [miri_core_job("C16", "c16", tier, 4, 96)],
                          required=["cache.loads", "cache.loads_mapped", "cache.loads_that_observed_a_change", "cache.cloned", "load.fallback_confirmed"])
 PLANS["C16"]["rule"] = CORE_RULE + (" Profile c16: about 3 of 8 operations are Cache::load on a per-thread cache (plain, mapped or a clone) of a container that other "
                                      "threads store into (fresh values, the same value again, None); each cache load is recorded as a read of the container with SeqCst stamps.")
